@@ -26,7 +26,11 @@ pub const BUDGET_PER_BYTE: usize = 64;
 pub const WALL_LIMIT_US: u128 = 2_000_000;
 const RLIMIT_AS_BYTES: u64 = 2 << 30;
 const RLIMIT_STACK_BYTES: u64 = 8 << 20;
-const CHILD_SILENCE_TIMEOUT: Duration = Duration::from_secs(6);
+/// A worker that burns this much CPU without finishing its current input is hung (10× the per-call limit: CPU accounting on a shared box is noisy).
+const HANG_CPU_SECS: f64 = 20.0;
+/// A worker that neither progresses nor uses CPU for this long is blocked.
+const BLOCKED_WALL: Duration = Duration::from_secs(150);
+const POLL: Duration = Duration::from_millis(500);
 
 pub fn budget(len: usize) -> usize {
     BUDGET_BASE + BUDGET_PER_BYTE * len
@@ -108,6 +112,7 @@ const C_PANICS: usize = 7;
 const C_MAXPEAK: usize = 8;
 const C_MAXUS: usize = 9;
 const C_BVALID: usize = 10;
+const C_WPID: usize = 11;
 
 /// Cells shared between the zygote, its forked worker and (when file-backed) the parent.
 struct Shared(*mut u64);
@@ -300,6 +305,7 @@ fn child_main(args: &[String]) -> ! {
             unsafe { libc::_exit(0) };
         }
         unsafe { libc::close(fds[1]) };
+        shared.set(C_WPID, pid as u64);
         let mut tail: Vec<u8> = Vec::new();
         let mut buf = [0u8; 4096];
         loop {
@@ -456,8 +462,8 @@ fn run_child(family: &str, lo: usize, hi: usize, thorough: bool, targets: &[Targ
         let _ = stderr.read_to_end(&mut s);
         String::from_utf8_lossy(&s[s.len().saturating_sub(2000)..]).to_string()
     });
-    let read_progress = |p: &std::path::Path| -> [u64; 4] {
-        let mut out = [0u64; 4];
+    let read_progress = |p: &std::path::Path| -> [u64; 12] {
+        let mut out = [0u64; 12];
         if let Ok(b) = std::fs::read(p) {
             for (i, o) in out.iter_mut().enumerate() {
                 if b.len() >= (i + 1) * 8 {
@@ -471,10 +477,20 @@ fn run_child(family: &str, lo: usize, hi: usize, thorough: bool, targets: &[Targ
     };
     let mut next = lo;
     let mut finished = false;
-    let mut timed_out: Option<[u64; 4]> = None;
+    let mut timed_out: Option<([u64; 12], String)> = None;
     let mut last_progress = read_progress(&progress);
+    let mut progress_at = Instant::now();
+    let mut cpu_at_progress: Option<f64> = None;
+    // CPU seconds (user+sys) of one process, from /proc/<pid>/stat
+    let proc_cpu = |pid: u64| -> Option<f64> {
+        let t = std::fs::read_to_string(format!("/proc/{pid}/stat")).ok()?;
+        let after = t.rsplit_once(')')?.1;
+        let f: Vec<&str> = after.split_whitespace().collect();
+        let ticks = f.get(11)?.parse::<f64>().ok()? + f.get(12)?.parse::<f64>().ok()?;
+        Some(ticks / unsafe { libc::sysconf(libc::_SC_CLK_TCK) as f64 })
+    };
     loop {
-        match rx.recv_timeout(CHILD_SILENCE_TIMEOUT) {
+        match rx.recv_timeout(POLL) {
             Ok(line) => {
                 let (tag, rest) = line.split_once(' ').unwrap_or((line.as_str(), ""));
                 match tag {
@@ -547,13 +563,31 @@ fn run_child(family: &str, lo: usize, hi: usize, thorough: bool, targets: &[Targ
                 }
             }
             Err(std::sync::mpsc::RecvTimeoutError::Timeout) => {
-                // silent: still making progress through a batch, or stuck on one input?
+                // silent: progressing through a batch, starved by the shared box, or stuck on one input?
                 let now = read_progress(&progress);
-                if now != last_progress {
+                let same_input = now[..4] == last_progress[..4] && now[C_WPID] == last_progress[C_WPID];
+                let cpu = proc_cpu(now[C_WPID]);
+                if !same_input {
                     last_progress = now;
+                    progress_at = Instant::now();
+                    cpu_at_progress = cpu;
                     continue;
                 }
-                timed_out = Some(now);
+                if cpu_at_progress.is_none() {
+                    cpu_at_progress = cpu;
+                }
+                let burnt = match (cpu, cpu_at_progress) {
+                    (Some(a), Some(b)) => a - b,
+                    _ => 0.0,
+                };
+                let why = if now[C_RUNNING] == 1 && burnt > HANG_CPU_SECS {
+                    format!("{burnt:.1} s of CPU on one input without finishing")
+                } else if progress_at.elapsed() > BLOCKED_WALL {
+                    format!("no progress and {burnt:.1} s of CPU in {} s (blocked)", BLOCKED_WALL.as_secs())
+                } else {
+                    continue;
+                };
+                timed_out = Some((now, why));
                 unsafe { libc::kill(-(child.id() as i32), libc::SIGKILL) };
                 let _ = child.kill();
                 break;
@@ -572,9 +606,9 @@ fn run_child(family: &str, lo: usize, hi: usize, thorough: bool, targets: &[Targ
             }
         }
     }
-    if let Some(p) = timed_out {
+    if let Some((p, why)) = timed_out {
         let (i, ti, len, running) = (p[0] as usize, p[1] as usize, p[2] as usize, p[3] == 1);
-        let death = Death { class: "hang", detail: format!("no progress for {} s on input #{i}; process group killed", CHILD_SILENCE_TIMEOUT.as_secs()) };
+        let death = Death { class: "hang", detail: format!("{why} (input #{i}); process group killed") };
         *st.deaths.entry("hang".into()).or_default() += 1;
         if running {
             st.inputs += 1;
@@ -756,7 +790,7 @@ fn main() {
         r.finish();
     }
     r.rule("every target (all C12 decoders + WSC reader/validator + unvalidated WSC view + WAL segment reader + warp-wasm byte boundary) × (i) EVERY byte string of length ≤2 (quick) / ≤3 (thorough), in-process; (ii) in limited child processes: every CBOR header shape × declared length {0,1,23,24,255,256,65535,65536,2^32−1,2^32,2^63,2^64−1} (every width that can carry it) × tail {none, 1 byte, exact when ≤64 KiB} at top level / inside an array / as a map value; nesting depth 2^0..2^15 (quick) / 2^20 (thorough) of arrays, map values, map keys, tags, LE options, plus bisection of the first failing depth; truncation of every valid encoding at every length; a lying u64/u32 length written at every offset of valid encodings, WSC files (every 8-aligned field: 0,1,len,len+1,2^32,2^64−1 and the length list) and WAL segments (raw and with re-signed disk records); single-position mutants of valid encodings and of the WAL segment; the warp-wasm native boundary on sweeps, EINT headers with lying lengths and mutated valid requests. distinct_nontrivial = distinct (target,input) pairs that ran to a verdict.");
-    r.assume(&format!("child limits: RLIMIT_AS {} MiB, RLIMIT_STACK {} MiB (main thread runs the decoders), no-progress timeout {} s; budget per input: peak allocation ≤ 64·len + 16 MiB measured by a counting #[global_allocator], CPU time of the call ≤ 2 s (wall is not used: the box is shared), hang = no progress for the timeout", RLIMIT_AS_BYTES >> 20, RLIMIT_STACK_BYTES >> 20, CHILD_SILENCE_TIMEOUT.as_secs()));
+    r.assume(&format!("child limits: RLIMIT_AS {} MiB, RLIMIT_STACK {} MiB (main thread runs the decoders), hang = {} s of CPU on one input without finishing (or 150 s blocked); budget per input: peak allocation ≤ 64·len + 16 MiB measured by a counting #[global_allocator], CPU time of the call ≤ 2 s (wall only as a first filter: the box is shared)", RLIMIT_AS_BYTES >> 20, RLIMIT_STACK_BYTES >> 20, HANG_CPU_SECS));
     r.assume("'random inputs up to 1 MiB' of the property text is sampling and is not done; the nesting family reaches 1 MiB inputs in the thorough tier");
     r.note("targets", json!(targets.iter().map(|t| json!({"name": t.name, "signature_group": t.sig_group, "child_only": t.child_only})).collect::<Vec<_>>()));
 
@@ -800,7 +834,7 @@ fn main() {
         .par_iter()
         .flat_map(|(fi, n)| {
             // split big families into chunks so children run concurrently
-            let chunk = if thorough { (*n / 16).max(5_000) } else { (*n / 3).max(20_000) };
+            let chunk = if thorough { (*n / 16).max(5_000) } else { (*n / 6).max(5_000) };
             let mut v = Vec::new();
             let mut lo = 0;
             while lo < *n {
